@@ -254,6 +254,139 @@ func stack(path string) (req, res []string) {
 	return req, res
 }
 
+// shared-state facts (Gen_Shared.v): what would let one message's processing
+// influence another's when the single stack instance is used concurrently.
+type sharedFacts struct {
+	hbhFields       int // fields of type hopByHopModifier
+	hbhListOtherUse int // uses of hopByHopHeaders other than its declaration and the one `range`
+	hbhPkgVars      int // package-level vars of hopbyhop_modifier.go other than hopByHopHeaders
+	viaFieldWrites  int // assignments to receiver fields inside ModifyRequest/ModifyResponse/hasLoop
+	viaPkgVarWrites int // assignments to package-level vars of via_modifier.go
+	reqOnlyPkgVars  int // package-level vars in forwarded_modifier.go and framing_modifier.go
+}
+
+func pkgVars(f *ast.File) []string {
+	var vs []string
+	for _, d := range f.Decls {
+		if gd, ok := d.(*ast.GenDecl); ok && gd.Tok == token.VAR {
+			for _, sp := range gd.Specs {
+				for _, n := range sp.(*ast.ValueSpec).Names {
+					vs = append(vs, n.Name)
+				}
+			}
+		}
+	}
+	return vs
+}
+
+func rootIdent(e ast.Expr) string {
+	for {
+		switch x := e.(type) {
+		case *ast.Ident:
+			return x.Name
+		case *ast.SelectorExpr:
+			e = x.X
+		case *ast.IndexExpr:
+			e = x.X
+		case *ast.StarExpr:
+			e = x.X
+		case *ast.ParenExpr:
+			e = x.X
+		default:
+			return ""
+		}
+	}
+}
+
+func shared(repo string) sharedFacts {
+	var sf sharedFacts
+	_, hf := parse(filepath.Join(repo, "header", "hopbyhop_modifier.go"))
+	foundType := false
+	for _, d := range hf.Decls {
+		if gd, ok := d.(*ast.GenDecl); ok && gd.Tok == token.TYPE {
+			for _, sp := range gd.Specs {
+				ts := sp.(*ast.TypeSpec)
+				if ts.Name.Name == "hopByHopModifier" {
+					st, ok := ts.Type.(*ast.StructType)
+					if !ok {
+						die("hopByHopModifier is not a struct")
+					}
+					foundType = true
+					sf.hbhFields = st.Fields.NumFields()
+				}
+			}
+		}
+	}
+	if !foundType {
+		die("type hopByHopModifier not found")
+	}
+	for _, v := range pkgVars(hf) {
+		if v != "hopByHopHeaders" {
+			sf.hbhPkgVars++
+		}
+	}
+	uses := 0
+	ast.Inspect(hf, func(n ast.Node) bool {
+		if id, ok := n.(*ast.Ident); ok && id.Name == "hopByHopHeaders" {
+			uses++
+		}
+		return true
+	})
+	sf.hbhListOtherUse = uses - 2 // the declaration and the range statement
+
+	_, vf := parse(filepath.Join(repo, "header", "via_modifier.go"))
+	vvars := map[string]bool{}
+	for _, v := range pkgVars(vf) {
+		vvars[v] = true
+	}
+	methods := 0
+	for _, d := range vf.Decls {
+		fd, ok := d.(*ast.FuncDecl)
+		if !ok || fd.Body == nil {
+			continue
+		}
+		recv := ""
+		if fd.Recv != nil && len(fd.Recv.List) == 1 && len(fd.Recv.List[0].Names) == 1 {
+			recv = fd.Recv.List[0].Names[0].Name
+		}
+		inMethod := recv != "" && (fd.Name.Name == "ModifyRequest" || fd.Name.Name == "ModifyResponse" || fd.Name.Name == "hasLoop")
+		if inMethod {
+			methods++
+		}
+		ast.Inspect(fd.Body, func(n ast.Node) bool {
+			var lhs []ast.Expr
+			switch x := n.(type) {
+			case *ast.AssignStmt:
+				if x.Tok != token.DEFINE {
+					lhs = x.Lhs
+				}
+			case *ast.IncDecStmt:
+				lhs = []ast.Expr{x.X}
+			}
+			for _, l := range lhs {
+				r := rootIdent(l)
+				if _, isSel := l.(*ast.SelectorExpr); isSel && inMethod && r == recv {
+					sf.viaFieldWrites++
+				}
+				if vvars[r] {
+					if _, plain := l.(*ast.Ident); plain || true {
+						sf.viaPkgVarWrites++
+					}
+				}
+			}
+			return true
+		})
+	}
+	if methods != 3 {
+		die("via_modifier.go: expected ModifyRequest, ModifyResponse and hasLoop methods, found %d of them", methods)
+	}
+	for _, fn := range []string{"forwarded_modifier.go", "framing_modifier.go"} {
+		_, f := parse(filepath.Join(repo, "header", fn))
+		sf.reqOnlyPkgVars += len(pkgVars(f))
+	}
+	return sf
+}
+
 func coqString(s string) string {
 	for _, c := range []byte(s) {
 		if c < 0x20 || c > 0x7e || c == '"' {
@@ -292,6 +425,20 @@ func main() {
 	b.WriteString("Definition req_order : list stack_mod := [" + strings.Join(req, "; ") + "].\n")
 	b.WriteString("Definition res_order : list stack_mod := [" + strings.Join(res, "; ") + "].\n")
 
+	sf := shared(*repo)
+	var c strings.Builder
+	c.WriteString("(* GENERATED by harness/cmd/gen_c14 from header/{hopbyhop,via,forwarded,framing}_modifier.go:\n   what could carry state from one message to another through the shared stack.\n   Do not edit. *)\n")
+	c.WriteString("From Coq Require Import Arith Bool.\n\n")
+	fmt.Fprintf(&c, "Definition hbh_modifier_fields : nat := %d.\n", sf.hbhFields)
+	fmt.Fprintf(&c, "Definition hbh_list_uses_other_than_the_range : nat := %d.\n", sf.hbhListOtherUse)
+	fmt.Fprintf(&c, "Definition hbh_other_package_vars : nat := %d.\n", sf.hbhPkgVars)
+	fmt.Fprintf(&c, "Definition via_receiver_field_writes_in_methods : nat := %d.\n", sf.viaFieldWrites)
+	fmt.Fprintf(&c, "Definition via_package_var_writes : nat := %d.\n", sf.viaPkgVarWrites)
+	fmt.Fprintf(&c, "Definition request_only_modifier_package_vars : nat := %d.\n\n", sf.reqOnlyPkgVars)
+	c.WriteString("Definition shared_state_free : bool :=\n  Nat.eqb hbh_modifier_fields 0 && Nat.eqb hbh_list_uses_other_than_the_range 0 &&\n  Nat.eqb hbh_other_package_vars 0 && Nat.eqb via_receiver_field_writes_in_methods 0 &&\n  Nat.eqb via_package_var_writes 0 && Nat.eqb request_only_modifier_package_vars 0.\n")
+	if err := os.WriteFile(filepath.Join(*out, "Gen_Shared.v"), []byte(c.String()), 0o644); err != nil {
+		die("%v", err)
+	}
 	if err := os.WriteFile(filepath.Join(*out, "Gen_HopByHop.v"), []byte(a.String()), 0o644); err != nil {
 		die("%v", err)
 	}
